@@ -166,7 +166,7 @@ def _cadence(rep, tier):
 
     def dqn_prog(which, K, start):
         def prog(ctx):
-            tr = L.run_dqn_family(ctx, which, K, start, symbolic=("batch_size", "target_update_frequency"))
+            tr = L.run_dqn_family(ctx, which, K, start, symbolic=("batch_size", "target_update_frequency", "update_frequency"))
             ev = _events_at(tr, "hard_target_net_update")
             f, bs = tr.cfg["target_update_frequency"], tr.cfg["batch_size"]
             tgt = tr.result.q_target_net
